@@ -2,21 +2,76 @@
 TUS = ['src/base/QXmppSasl.cpp', 'src/base/QXmppUtils.cpp', 'src/base/QXmppStreamManagement.cpp', 'src/base/QXmppStanza.cpp', 'src/base/QXmppIq.cpp',
        'src/base/QXmppBindIq.cpp', 'src/base/QXmppNonza.cpp', 'src/base/Stream.cpp', 'src/server/QXmppPasswordChecker.cpp']
 MODELS = ['c16_pre.c', 'qt_core.c', 'qt_list.c', 'qt_dom.c', 'qt_object.c', 'c16_env.c']
-LB = {r'^_ZNSt6ranges14__copy_or_move': 70, r'^_ZN13QConcatenableI10QByteArrayE8appendTo': 16}
+LB = {r'^_ZNSt6ranges14__copy_or_move': 70, r'^_ZN13QConcatenableI10QByteArrayE8appendTo': 16, r'catB': 12}
 def I(name, entry, **kw):
-    d = dict(name=name, entry='h_' + entry, unwind=8, timeout_s=300, mem_gb=6, object_bits=12, cdefs={'VP_ACTIVATE_HOOK': 'c16_on_signal'}, bound=''); d.update(kw); return d
-def C(name, entry, case, **kw): return I(name, entry, cdefs={'VP_ACTIVATE_HOOK': 'c16_on_signal', 'VP_CASE': case}, **kw)
+    d = dict(name=name, entry='h_' + entry, unwind=8, timeout_s=300, mem_gb=3, object_bits=12, cdefs={'VP_ACTIVATE_HOOK': 'c16_on_signal'}, bound=''); d.update(kw); return d
+def C(name, entry, case, **kw):
+    cd = {'VP_ACTIVATE_HOOK': 'c16_on_signal', 'VP_CASE': case}; cd.update(kw.pop('cdefs', {})); return I(name, entry, cdefs=cd, **kw)
+KF_RACE = 'reply_applied_to_current_exchange'
+Q = ('quick', 'thorough'); T = ('thorough',)
+MECH = ['PLAIN', 'DIGEST-MD5', 'ANONYMOUS', 'SCRAM-SHA-1 (unsupported)', 'plain (wrong case)', 'empty / absent']
+RESP = ['no exchange pending', 'PLAIN step 0', 'PLAIN step 1', 'ANONYMOUS step 1', 'DIGEST-MD5 step 0', 'DIGEST-MD5 step 1', 'DIGEST-MD5 step 2', 'DIGEST-MD5 step 3']
+B_STATE = 'pre-state: jid arbitrary 0..4 UTF-16 units, resource 0..2 units, domain 0..2 ASCII units; '
+INSTANCES = (
+    [I('client_unauth', 'client_unauth', mem_gb=2, bound='pre-state: jid EMPTY, resource/domain arbitrary; one jabber:client element: tag in {iq,message,presence,x}, type in {absent,set,get,subscribe,subscribed,result,chat}, from <= 4 / to <= 3 / id <= 1 arbitrary units, 0..1 child <bind|session|query xmlns=bind|session|roster|inherited> with <resource> text <= 2 units'),
+     I('client_auth_route', 'client_auth_route', bound='pre-state: jid arbitrary NON-EMPTY 1..4 units; element as client_unauth; runs ending in a hand-over to routing'),
+     I('client_auth_bind', 'client_auth_bind', bound='as client_auth_route; runs ending in a resource binding'),
+     I('client_auth_drop', 'client_auth_drop', tiers=T, bound='as client_auth_route; runs in which nothing is routed or bound')]
+    + [C('other_ns_c%d' % c, 'other_ns', c, mem_gb=2, tiers=(T if c == 1 else Q), bound=B_STATE + 'element tag in {starttls,auth,iq,message,proceed}, namespace %s' % n) for c, n in enumerate(['urn:ietf:params:xml:ns:xmpp-tls', 'jabber:server', 'none'])]
+    + [I('sasl_nochecker', 'sasl_nochecker', mem_gb=2, bound=B_STATE + 'no password checker; element {auth,response,abort,authenticate,success} in the SASL or SASL2 namespace, payload 1..3 bytes')]
+    + [C('%s_m%d' % (e, m), e, m, cdefs={'LIST_CAP': 7}, tiers=(Q if (m in (0, 1, 2, 3, 5) and e == 'sasl_auth') or m == 0 else T),
+         bound=B_STATE + '%s mechanism %s, payload 1..5 arbitrary ASCII bytes (incl. NUL)' % ('<auth xmlns=sasl>' if e == 'sasl_auth' else '<authenticate xmlns=sasl2> with <initial-response>', MECH[m]))
+       for e in ('sasl_auth', 'sasl2_auth') for m in range(6)]
+    + [C('password_reply_c%d' % c, 'password_reply', c, tiers=(T if c == 3 else Q), bound=B_STATE + 'pending PLAIN exchange for an arbitrary user of 0..3 ASCII units, %s; reply NoError | AuthorizationError | TemporaryError' % n)
+       for c, n in ((0, 'SASL'), (1, 'SASL2 without inline bind'), (3, 'SASL2 with inline bind, empty tag'), (7, 'SASL2 with inline bind, tag 1..2 units'))]
+    + [C('sasl_response_c%d' % c, 'sasl_response', c, tiers=(Q if (c < 8 and c != 3) or c in (14, 21) else T),
+         bound=B_STATE + '<response xmlns=%s> with 1..4 payload bytes; exchange state: %s%s; recorded user 0..2 ASCII units; DIGEST-MD5 directives of fixed lengths 1..4 bytes' % ('sasl2' if c & 8 else 'sasl', RESP[c & 7], ', digest left over from an earlier round' if c & 16 else ''))
+       for c in list(range(16)) + [21, 29]]
+    + [C('digest_reply_c%d' % c, 'digest_reply', c, unwind=12, tiers=(Q if c != 3 else T),
+         bound=B_STATE + 'pending DIGEST-MD5 exchange at step 1 (%s), directives realm/digest-uri/nc/cnonce 1 byte, username 2, qop "auth" or 4 arbitrary bytes, response 4 arbitrary bytes; reply error in {NoError, AuthorizationError, TemporaryError}, stored digest %s; MD5 = recording oracle with 2-byte digests' % ('SASL2' if c & 1 else 'SASL', '2 arbitrary bytes' if c & 2 else 'empty'))
+       for c in (0, 1, 2, 3)]
+    + [I('reply_foreign_sender', 'reply_foreign_sender', mem_gb=2, bound=B_STATE + 'finished() slot invoked with sender() null or not a password reply'),
+       I('sasl_misc', 'sasl_misc', mem_gb=2, bound=B_STATE + 'pending PLAIN exchange; element abort | authenticate@sasl | success in the SASL / SASL2 namespace'),
+       I('stream_open', 'stream_open', mem_gb=2, loop_bounds={r'^_ZNSt6ranges14__copy_or_move': 240}, bound=B_STATE + 'pending exchange or none; <stream:stream to=X> with X 0..2 arbitrary units'),
+       I('reply_race', 'reply_race', known_finding=KF_RACE, cdefs={'VP_ACTIVATE_HOOK': 'c16_on_signal', 'LIST_CAP': 7}, bound='unauthenticated connection; two pipelined <auth mechanism=PLAIN> with messages NUL u NUL p (u, p one arbitrary ASCII byte each); the checker approves the first request'),
+       I('checker_default', 'checker_default', mem_gb=2, bound='user, password, stored password <= 2 arbitrary UTF-16 units, domain <= 1; getPassword result NoError | AuthorizationError | TemporaryError')]
+)
 SPEC = dict(
     property='C16',
     groups=[
         dict(name='client', harness='h.cpp', tus=TUS, models=MODELS, ranges_shim=True, loop_bounds=LB,
-             instances=[I('client_unauth', 'client_unauth'), I('client_auth_route', 'client_auth_route'), I('client_auth_bind', 'client_auth_bind'), I('client_auth_drop', 'client_auth_drop'),
-                        I('other_ns', 'other_ns'), I('sasl_nochecker', 'sasl_nochecker')]
-                       + [I('%s_m%d' % (e, m), e, cdefs={'VP_ACTIVATE_HOOK': 'c16_on_signal', 'VP_CASE': m, 'LIST_CAP': 7}) for e in ('sasl_auth', 'sasl2_auth') for m in range(6)]
-                       + [C('password_reply_c%d' % c, 'password_reply', c) for c in (0, 1, 3, 7)]
-                       + [C('sasl_response_c%d' % c, 'sasl_response', c) for c in range(16)]
-                       + [C('digest_reply_c%d' % c, 'digest_reply', c) for c in (0, 1)]
-                       + [I('reply_foreign_sender', 'reply_foreign_sender'), I('sasl_misc', 'sasl_misc'), I('checker_default', 'checker_default')]),
+             instances=INSTANCES),
     ],
-    bounds=[], assumptions=[], outside=[],
+    bounds=[
+        'single inductive steps: ONE event (incoming element, stream open, or password-checker reply) applied to an ARBITRARY private state of the connection: jid = arbitrary string of 0..4 UTF-16 units (empty = unauthenticated; not even required to look like a JID), resource 0..2 units, served domain 0..2 ASCII units, SASL exchange = none | PLAIN step 0/1 | ANONYMOUS step 1 | DIGEST-MD5 step 0..3 with an arbitrary recorded user name (<= 3 ASCII units), SASL or SASL2 framing, SASL2 inline bind request absent / empty tag / tag 1..2 units',
+        'jabber:client element: tag in {iq, message, presence, x}, type in {absent, set, get, subscribe, subscribed, result, chat}, from 0..4 / to 0..3 / id 0..1 arbitrary UTF-16 units, zero or one child with tag in {bind, session, query} and xmlns in {xmpp-bind, xmpp-session, jabber:iq:roster, inherited} containing <resource> with 0..2 arbitrary units',
+        'SASL elements: auth / authenticate (+ initial-response) / response / abort / success in urn:ietf:params:xml:ns:xmpp-sasl and urn:xmpp:sasl:2; mechanism in {PLAIN, DIGEST-MD5, ANONYMOUS, SCRAM-SHA-1, plain, empty}; PLAIN message = 1..5 arbitrary ASCII bytes including NUL at any position (all splits: 1..6 pieces)',
+        'DIGEST-MD5: directive values of fixed length (realm, digest-uri, nc, cnonce 1 byte, username 2, response 4 arbitrary bytes, qop = "auth" or 4 arbitrary bytes), stored digest empty or 2 arbitrary bytes, server nonce 2 arbitrary bytes, MD5 digests 2 symbolic bytes',
+        'elements in other namespaces: tag in {starttls, auth, iq, message, proceed} x namespace in {xmpp-tls, jabber:server, none}',
+        'password-checker reply error in {NoError, AuthorizationError, TemporaryError}',
+        'thorough tier adds the SASL2 twins of every <response/> state, the remaining mechanism names and client_auth_drop; bounds are the same',
+    ],
+    assumptions=[
+        'inductive reading: every instance starts from an arbitrary state, so the per-event claims hold along every event sequence; the only state invariant used is "a DIGEST-MD5 object is at step 2 only after a response was verified", which digest_reply_* establish (step 1 -> 2 iff the response equals the RFC 2831 digest) and no other event sets',
+        'QXmppIncomingClient lives in raw storage: QObject part from the shared QObject model, QXmppIncomingClientPrivate built by its real constructor; XmppSocket constructor/sendData/disconnectFromHost, QSslSocket::flush/startServerEncryption and QTimer::start/stop/singleShot are ghost logs/no-ops; every socket write succeeds or fails nondeterministically',
+        'signals go through the real moc code into QMetaObject::activate (shared model): emissions are counted per signal; the element handed to routing is compared by node identity with the received one (QDomElement is an explicitly shared handle: stamping happens in place), its from attribute is read after the call',
+        'QXmppLoggable: logMessage / updateCounter / setGauge have no effect; log and stream-error texts are not built (QString::arg on patterns > 8 units returns an empty string); QString::arg substitutes exactly for the short JID patterns "%1@%2" and "%1/%2"; QXmppIncomingClientPrivate::origin() (log text) and QXmppIncomingClient::sendStreamFeatures() (content of <stream:features/>) are cut, the latter is counted',
+        'serializeXml<T> is cut: the bytes are not built, the written block carries the nonza type (Sasl/Sasl2 Success, Failure, Challenge, StarttlsProceed, QXmppNonza); condition codes inside <failure/> are not checked',
+        'password checker = harness subclass recording (user, password, domain) of every request and handing out an unfinished QXmppPasswordReply; replies are delivered by calling the real slots with sender() set; qobject_cast through a class registry; dynamic property __sasl_raw through a one-entry-per-object table; QXmppPasswordChecker::checkPassword (default path) is checked separately against an arbitrary getPassword() outcome',
+        'base64 is the abstract tagged encoding of models/qt_core.c (payload text always decodes to the harness bytes); UTF-8 codec = identity on ASCII: PLAIN payloads, user names, domain, DIGEST directive values and generated ids are ASCII',
+        'QXmppUtils::generateStanzaHash/generateStanzaUuid/generateRandomBytes return arbitrary non-empty ASCII strings of 1..2 units (randomness and uniqueness are outside)',
+        'DIGEST-MD5 message grammar is cut (C06 territory): QXmppSaslDigestMd5::parseMessage returns the harness-chosen directive table whatever the text, serializeMessage returns an opaque block, QMap<QByteArray,QByteArray> is a per-directive slot model; QCryptographicHash::hash is a recording oracle (fresh symbolic bytes, equal inputs => equal outputs, nothing else assumed)',
+        'string-model hygiene local to this property: QString::mid/left/right, QDomElement::tagName/namespaceURI/text of a null element and default-constructed QString/QByteArray yield an empty MODEL block instead of Qt\'s static shared_null (same value; isNull() is not used by the code under test); reallocData keeps the constant length bound of a block (asserted)',
+        'inline-bind instances assume the approved account name contains no "/" (not a valid localpart, RFC 7622): jidToBareJid cuts at the first "/"',
+        'QXmppIq/QXmppBindIq/QXmppStanza parsing, Stream.cpp, QXmppSasl.cpp (server objects, create(), nonza fromDom), QXmppUtils.cpp (jidToBareJid, firstChildElement, isIqType, parseBase64) and QXmppPasswordChecker.cpp are REAL code',
+    ],
+    outside=[
+        'QXmppServer routing tables (routeData, incomingClientsByJid/BareJid), presence/roster extensions, QXmppIncomingServer / s2s: which connection RECEIVES a routed stanza (anchor "routing by destination") is not encoded - C16 stops at the hand-over elementReceived(stamped element); needs class-level QHash/QSet models and QMetaObject::invokeMethod',
+        'a second authenticated client as victim: covered only through the stamping claim (every routed stanza carries the sender\'s own authenticated address), not by a two-connection scenario',
+        'event histories longer than one step beyond the inductive argument (except the two-request scenario of the known finding reply_applied_to_current_exchange)',
+        'pipelined requests whose replies overtake each other: see known finding reply_applied_to_current_exchange (instance reply_race); <abort xmlns=sasl2/> followed by a late checker reply (onSasl2Authenticated would read the disengaged sasl2AuthRequest - observed by reading, robustness not C16); a SASL exchange continued with elements of the other SASL version',
+        'content of the answers (<failure/> condition, bind result, session result, <success/> authorization-identifier, stream features), TLS (startServerEncryption is only counted), inactivity timer, socket errors',
+        'DIGEST-MD5 message syntax, real MD5, SASLprep / non-ASCII credentials, account names containing "/" or "@" (an approved user name "a@d/x" yields the address "a@d/<resource>" after binding - by reading; account-name validation is left to the password checker)',
+        'strings longer than the stated bounds; more than one child element in an iq',
+    ],
 )
